@@ -6,7 +6,7 @@
     written for AddHandler, the call/return labels, Stop, the loop, the watcher) and the reason
     clauses behind code 6 (state-level counterpart: RouterLife/Local.v [RInv], [stop_is_local]). *)
 From WM Require Import Base.Prelude Base.Count RouterLife.Model RouterLife.Monitor RouterLife.Inv
-                       RouterLife.ProofsA RouterLife.ProofsB RouterLife.Local.
+                       RouterLife.ProofsA RouterLife.ProofsB RouterLife.Local RouterLife.Theorems.
 From RecordUpdate Require Import RecordSet.
 Import RecordSetNotations.
 
@@ -368,4 +368,117 @@ Proof.
     assert (K2 : MInv (s <| mainp := RDone true |>) m).
     { eapply minv_main_gen; [exact K|reflexivity..| | |]; simpl; rewrite ?E; try discriminate. auto. }
     dK K2. constructor; simpl in *; auto. intros _. apply (i_isrun _ I). rewrite E. discriminate.
+Qed.
+
+Lemma minv_thr_stop s m t h a : MInv s m -> thr s t = TStopRead h a -> MInv (set_t s t (TStopCall h a)) m.
+Proof.
+  intros K E. dK K. constructor; simpl; auto.
+  - intros t' h' a' X [Y|Y]; (updt t t'; [|eauto]); [discriminate|]. injection Y as <- <-. eapply K6; eauto.
+  - intros X. destruct (K9 X) as [A B]. split; auto.
+    destruct (Nat.eq_dec (maint s) t) as [Q|Q]; [congruence|rewrite upd_other by exact Q; exact B].
+  - destruct K10 as [A B]. split; auto. intros t' X. updt t t'; [discriminate|eauto].
+Qed.
+
+Lemma mstep_lt s m t c s' evs : SInv s -> fix4 s = true -> MInv s m -> okbad m ->
+  step s (LT t c) = Some (s', evs) -> MInv s' (mon_run m evs) /\ okbad (mon_run m evs).
+Proof.
+  intros I F4 K B H. unfold step in H. destruct (thr s t) eqn:E; try discriminate H.
+  - (* TRunCheck *)
+    destruct c; try discriminate H. destruct (isRunning s) eqn:R.
+    + injection H as <- <-. simpl. split; [|okb B].
+      assert (K' : MInv (set_t s t (TRunDone false)) m) by (apply minv_thr; auto; try discriminate; congruence).
+      dK K'. constructor; simpl in *; auto.
+    + destruct (mainp s) eqn:M; try discriminate H. injection H as <- <-. simpl. split; [|exact B].
+      assert (R2 : m_run2 m t = false).
+      { destruct (m_run2 m t) eqn:X; auto. apply (k_run2 _ _ K) in X. congruence. }
+      assert (RC : m_runcalled m = true) by (destruct (k_called _ _ K) as [_ X]; eapply X; exact E).
+      assert (A11 := k_atrun _ _ K).
+      dK K. constructor; simpl; auto; try discriminate.
+      all: try solve [intros t' h a X [Y|Y]; (updt t t'; [discriminate|eauto])].
+      all: try solve [intros _; split; [exact R2|now rewrite upd_same]].
+      all: try solve [split; [auto|intros t' X; auto]].
+  - (* TRH *)
+    destruct (rh_step s (OThr t) par p c) as [[[s1 p'] e1]|] eqn:RH; [|discriminate]. injection H as <- <-.
+    assert (Hh : rhl p = true -> holder s (OThr t) par p) by (intros R; apply holder_thr; auto).
+    destruct (rh_minv s m (OThr t) par p c s1 p' e1 I K B Hh RH) as [K1 B1].
+    pose proof (rh_mframe _ _ _ _ _ _ _ _ RH) as (F1 & F2 & F3 & F4' & F5 & F6 & F7 & F8 & F9 & F10).
+    assert (K2 : MInv (set_t s1 t (TRH par p')) (mon_run m e1)).
+    { apply minv_thr; auto; try discriminate. rewrite F5, E. discriminate. }
+    rewrite mon_run_app. destruct p' as [| | | | | |[]]; simpl; try (split; [exact K2|exact B1]).
+    match goal with |- context [if ?c then _ else _] => destruct c end.
+    + split; [exact K2|exact B1].
+    + split; [now apply minv_bad|]. apply okbad_bad; auto.
+  - (* TStopRead *)
+    destruct c; try discriminate H. destruct (h_started (hs s h)) eqn:St; injection H as <- <-; simpl.
+    + split; [now apply minv_thr_stop|exact B].
+    + destruct (m_stopafter m t) eqn:SA.
+      * exfalso. assert (A : after = true) by (eapply (k_stopafter _ _ K); eauto).
+        destruct (i_stop _ I t h after (or_introl E)) as [_ X]. specialize (X A).
+        destruct (i_hrec _ I h). rewrite (r_sch X) in St. discriminate.
+      * split; [|exact B]. apply minv_thr; auto; try discriminate. congruence.
+  - (* TStopCall *)
+    destruct c; try discriminate H. destruct (h_stopFn (hs s h)) eqn:Sf; injection H as <- <-; simpl.
+    + split; [|exact B]. apply minv_thr; try discriminate; [mframe K|simpl; congruence].
+    + destruct (m_stopafter m t) eqn:SA.
+      * exfalso. assert (A : after = true) by (eapply (k_stopafter _ _ K); eauto).
+        pose proof (i_stopcall _ I t h after E) as X.
+        destruct (i_hrec _ I h). destruct (r_fix4 F4 (or_introl X)). congruence.
+      * split; [|exact B]. apply minv_thr; auto; try discriminate. congruence.
+  - (* TClose *)
+    destruct (cl_step s (OThr t) p c) as [[s1 p']|] eqn:CL; [|discriminate]. injection H as <- <-.
+    pose proof (cl_mframe _ _ _ _ _ _ CL) as (F1 & F2 & F3 & F4' & F5 & F6 & F7 & F8 & F9 & F10).
+    assert (K1 : MInv s1 m) by (eapply minv_frame; eauto).
+    assert (K2 : MInv (set_t s1 t (TClose p')) m).
+    { apply minv_thr; auto; try discriminate. rewrite F6, E. discriminate. }
+    destruct p'; simpl; split; auto.
+Qed.
+
+Theorem step_minv s m l s' evs : SInv s -> fix4 s = true -> MInv s m -> okbad m ->
+  step s l = Some (s', evs) -> MInv s' (mon_run m evs) /\ okbad (mon_run m evs).
+Proof.
+  intros I F4 K B H. destruct l.
+  - eapply mstep_add; eauto.
+  - eapply mstep_calls; [exact I|exact K|exact B| exists t; left; reflexivity | exact H].
+  - eapply mstep_calls; [exact I|exact K|exact B| exists t; right; left; exists par; reflexivity | exact H].
+  - eapply mstep_calls; [exact I|exact K|exact B| exists t; right; right; left; exists h; reflexivity | exact H].
+  - eapply mstep_calls; [exact I|exact K|exact B| exists t; right; right; right; reflexivity | exact H].
+  - eapply mstep_simple; [exact I|exact F4|exact K|exact B| left; reflexivity | exact H].
+  - eapply mstep_simple; [exact I|exact F4|exact K|exact B| right; right; exists h; left; reflexivity | exact H].
+  - eapply mstep_simple; [exact I|exact F4|exact K|exact B| right; left; reflexivity | exact H].
+  - eapply mstep_simple; [exact I|exact F4|exact K|exact B| right; right; exists h; right; left; reflexivity | exact H].
+  - eapply mstep_simple; [exact I|exact F4|exact K|exact B| right; right; exists h; right; right; left; reflexivity | exact H].
+  - eapply mstep_simple; [exact I|exact F4|exact K|exact B| right; right; exists h; right; right; right; left; reflexivity | exact H].
+  - eapply mstep_simple; [exact I|exact F4|exact K|exact B| right; right; exists h; right; right; right; right; left; reflexivity | exact H].
+  - eapply mstep_simple; [exact I|exact F4|exact K|exact B| right; right; exists h; right; right; right; right; right; left; reflexivity | exact H].
+  - eapply mstep_simple; [exact I|exact F4|exact K|exact B| right; right; exists h; right; right; right; right; right; right; left; reflexivity | exact H].
+  - eapply mstep_lt; eauto.
+  - eapply mstep_main; eauto.
+  - eapply mstep_watch; eauto.
+  - eapply mstep_loop; eauto.
+  - eapply mstep_simple; [exact I|exact F4|exact K|exact B| right; right; exists h; right; right; right; right; right; right; right; exists closing; reflexivity | exact H].
+Qed.
+
+Theorem hist_accepted ls : forall s m, SInv s -> fix4 s = true -> MInv s m -> okbad m ->
+  MInv (run s ls) (mon_run m (hist s ls)) /\ okbad (mon_run m (hist s ls)).
+Proof.
+  induction ls as [|l ls IH]; intros s m I F4 K B; simpl; [split; assumption|].
+  destruct (step s l) as [[s' evs]|] eqn:E; [|now apply IH].
+  destruct (step_minv s m l s' evs I F4 K B E) as [K' B']. rewrite mon_run_app.
+  apply IH; auto.
+  - eapply step_sinv; eauto.
+  - rewrite (fix4_step _ _ _ _ E). exact F4.
+Qed.
+
+(** The acceptor raises none of the codes 2, 3, 4, 5, 7 (nor the watchdog codes 8, 9, 11) on the API trace of
+    ANY run of the model with the D4 repair: its verdict is 0 or one of 1, 6, 10.  Not covered: clause 6
+    (its state-level counterpart is [RInv] / [stop_is_local]) and clauses 1 / 10 in the one corner where the
+    WATCHER's Close removed a handler that was added while the router was closing itself. *)
+Theorem monitor_accepts_codes f14 f15 f16 ls :
+  let v := verdict (hist (rinit true f14 f15 f16) ls) in v = 0 \/ v = 1 \/ v = 6 \/ v = 10.
+Proof.
+  unfold verdict. apply (hist_accepted ls (rinit true f14 f15 f16) minit).
+  - apply sinv_init.
+  - reflexivity.
+  - apply minv_init.
+  - left. reflexivity.
 Qed.
